@@ -332,3 +332,16 @@ bool alloc_signed_view_bad(draco::DecoderBuffer *b, std::vector<int> *v, int num
   return true;
 }
 }  // namespace verif_control
+
+// ---- UNIQUEID control ---------------------------------------------------------------------------
+#include "draco/point_cloud/point_cloud.h"
+namespace verif_control {
+bool uniqueid_bad(draco::DecoderBuffer *b, draco::PointCloud *pc) {
+  uint32_t unique_id;
+  if (!draco::DecodeVarint(&unique_id, b)) return false;
+  draco::GeometryAttribute ga;
+  ga.set_unique_id(unique_id);
+  pc->AddAttribute(std::unique_ptr<draco::PointAttribute>(new draco::PointAttribute(ga)));
+  return true;   // AddAttribute has replaced the id by the attribute index
+}
+}  // namespace verif_control
